@@ -135,7 +135,7 @@ def check_runtime(ctx, fx, cfg):
             continue
         sk = sinks(b, t["dest"][0]) if len(t["dest"]) == 1 else []
         detached = any(x["k"] == "call" and (x["t"].get("callee") or "").endswith("::detach") for x in sk)
-        stored = any(x["k"] == "agg" and x.get("variant") == "Some" for x in sk)
+        stored = any(x["k"] == "agg" and x.get("variant") == "Some" for x in sk) or (len(t["dest"]) == 1 and any(x["k"] == "agg" and x.get("variant") == "Some" for x in graph.value_sinks(fx, b, t["dest"][0])))
         if sem == "cancels":
             if f["def"].endswith("::spawn_future"):
                 ctx.require(detached, "R18.2", "spawn_future-detaches@" + cfg, "dropping this runtime's task handle cancels the task: spawn_future must detach it explicitly", fn=f["def"], site=t["l"])
